@@ -122,6 +122,51 @@ def real_source_sessions(res, driver, b, rng, tier, stats):
     return {"sessions": n, "failing_requests_injected": nfail, "config": got[2]}
 
 
+def mixer_sessions(res, b, rng, tier):
+    """The library's TRNG mixer (src/random/ascon-trng-mixer.c, the source of all masking randomness) on top of a scripted system
+    source: harness built with -DVERIF_REAL_MIXER.  No model of the word values (they are raw backend words); checked: init and
+    reseed report exactly the status of their one system request, the words are a function of the seeds alone (same script ->
+    same words), a different seed or a different reseed seed changes them, no word stream repeats across the reseed."""
+    got = b.get("default", harness_defs=("-DVERIF_REAL_MIXER",), tag="-realmixer")
+    if not got:
+        return None
+    n = 0
+    for _ in range(12 if tier == "quick" else 100):
+        s1, s2, s3 = rnd_bytes(rng, 32), rnd_bytes(rng, 32), rnd_bytes(rng, 32)
+        ok1, ok2 = rng.random() < 0.7, rng.random() < 0.7
+        k = rng.choice([1, 5, 6, 13])
+        def run(a, b_, o1, o2):
+            lines = ["TRNG SYSCLEAR", "TRNG SYS %s %d" % (hx(a), o1), "TRNG SYS %s %d" % (hx(b_), o2), "MIX %d" % k]
+            return common.run_lines(got[1], lines)[1][-1].split()
+        r = run(s1, s2, ok1, ok2)
+        again = run(s1, s2, ok1, ok2)
+        other_seed = run(s3, s2, ok1, ok2)
+        other_reseed = run(s1, s3, ok1, ok2)
+        n += 4
+        probs = []
+        if len(r) != 5:
+            probs.append("malformed answer %s" % r)
+        else:
+            if r[0] != str(int(ok1)) or r[1] != str(int(ok2)):
+                probs.append("init/reseed reported %s/%s, the system source answered %d/%d" % (r[0], r[1], ok1, ok2))
+            if r[2] != "2":
+                probs.append("%s system requests instead of 2" % r[2])
+            if again != r:
+                probs.append("the same seeds gave different words")
+            if other_seed[3] == r[3]:
+                probs.append("a different seed gave the same words")
+            if other_reseed[4] == r[4] or other_reseed[3] != r[3]:
+                probs.append("the reseed seed does not (only) influence the words after the reseed")
+            if r[3][:16 * k] == r[4][:16 * k]:
+                probs.append("the word stream repeats after the reseed")
+        for pr in probs:
+            res.violation("mixer-" + pr.split()[0], "ascon_trng_* mixer on a scripted system source (seeds %s.. / %s.., status %d/%d, %d words): %s"
+                          % (hx(s1)[:16], hx(s2)[:16], ok1, ok2, k, pr),
+                          {"config": got[2], "ops": ["TRNG SYSCLEAR", "TRNG SYS %s %d" % (hx(s1), ok1), "TRNG SYS %s %d" % (hx(s2), ok2), "MIX %d" % k], "impl": r,
+                           "how": "harness built with -DVERIF_REAL_MIXER (only ascon_trng_generate is substituted)"})
+    return {"runs": n, "config": got[2]}
+
+
 def run(res, tier, seed, replay=None):
     t0 = time.time()
     rng = random.Random(seed)
@@ -149,7 +194,9 @@ def run(res, tier, seed, replay=None):
             if got:
                 per.append(diffrun.compare(res, corr, driver, got[1], got[2], sigfn=sig))
         real = None if replay else real_source_sessions(res, driver, b, rng, tier, stats)
+        mix = None if replay else mixer_sessions(res, b, rng, tier)
     res.cov["real_system_source"] = real
+    res.cov["trng_mixer"] = mix
     res.cov.update({
         "evaluations": sum(p["sessions"] for p in per),
         "distinct_nontrivial": max([p["nontrivial"] for p in per] or [0]),
